@@ -23,6 +23,13 @@ Theorem no_collect_when_positive :
   (0 < d)%N -> maybe_collect H collect should_collect force d h = h.
 Proof. exact maybe_collect_positive. Qed.
 
+(* ... and maybe_collect is the ONLY way to a collection: the call sites of VM::collect / Heap::sweep, regenerated from every
+   crate of the source on every run (Extracted.NoGcConsts.collect_paths), are the guarded calls in maybe_collect and the sweep
+   inside VM::collect itself.  A new `self.collect()` anywhere else runs without looking at no_gc_depth and fails this *)
+Example every_collection_path_is_guarded :
+  List.forallb (fun s => snd s) collect_paths = true /\ (0 < List.length collect_paths)%nat.
+Proof. vm_compute. split; [reflexivity | repeat constructor]. Qed.
+
 (* ---- emission: every entry -> Ret path of a compiled function body has as many EnterNoGc as ExitNoGc
    and the depth never goes below the entry depth -- for every body skeleton (sequence / if / loops /
    break / continue / return e / nested declarations / calls), @no_gc or not, inlining or not *)
